@@ -10,7 +10,9 @@ const P: &str = "C11";
 pub fn chain_ids() -> Vec<(&'static str, Nat)> {
     let cmax = Nat::pow2(255).sub(&Nat::from_u64(19)); // (2^256 - 1 - 36) / 2
     vec![("0", Nat::zero()), ("1", Nat::from_u64(1)), ("2", Nat::from_u64(2)), ("0x7f", Nat::from_u64(0x7f)), ("137", Nat::from_u64(137)), ("2^32", Nat::pow2(32)), ("2^64-1", Nat::pow2(64).sub(&Nat::from_u64(1))), ("2^64", Nat::pow2(64)),
-        ("2^128", Nat::pow2(128)), ("2^254", Nat::pow2(254)), ("cmax-1", cmax.sub(&Nat::from_u64(1))), ("cmax", cmax)]
+        ("2^128", Nat::pow2(128)), ("2^254", Nat::pow2(254)), ("cmax-1", cmax.sub(&Nat::from_u64(1))), ("cmax", cmax),
+        ("(2^8-36)/2", Nat::from_u64(110)), ("(2^8-36)/2+1", Nat::from_u64(111)), ("(2^16-36)/2", Nat::from_u64(32750)), ("(2^16-36)/2+1", Nat::from_u64(32751)), ("(2^32-36)/2", Nat::from_u64(2147483630)), ("(2^32-36)/2+1", Nat::from_u64(2147483631)),
+        ("(2^64-36)/2", Nat::pow2(63).sub(&Nat::from_u64(18))), ("(2^64-36)/2+1", Nat::pow2(63).sub(&Nat::from_u64(17))), ("2^63", Nat::pow2(63)), ("(2^128-36)/2+1", Nat::pow2(127).sub(&Nat::from_u64(17)))]
 }
 pub fn run(ctx: &Ctx) {
     let cs = chain_ids();
